@@ -335,9 +335,9 @@ Proof. unfold su_is_digit, su_is_lws. lia. Qed.
 Lemma lws_not_digit c : su_is_lws c = true -> su_is_digit c = false.
 Proof. unfold su_is_digit, su_is_lws. lia. Qed.
 
-Definition dstep (a : Z) (d : N) : Z := a * 10 + Z.of_N (d - 48).
+Definition uri_dstep (a : Z) (d : N) : Z := a * 10 + Z.of_N (d - 48).
 Lemma value_from_dec : forall s acc,
-  value_from 10 acc (digits 10 s) = fold_left dstep (take_while su_is_digit s) acc.
+  value_from 10 acc (digits 10 s) = fold_left uri_dstep (take_while su_is_digit s) acc.
 Proof.
   induction s as [|c s IH]; intros acc; cbn [digits take_while]; [reflexivity|].
   rewrite digit_ok10. destruct (su_is_digit c) eqn:E; [|reflexivity].
